@@ -21,7 +21,7 @@ META = {
     "bounds": {"quick": {"sub-project work": "1..4", "absence steps": "<= 2 in 0..5", "unit pairs": 8, "predecessor work": "0..2"}, "thorough": {"sub-project work": "1..6", "unit pairs": 12}},
     "outside": profiles.OUTSIDE + ["D = 0 (a zero-length sub-project still shows one WORKING step)", "non-dyadic non-integer unit ratios"],
 }
-REQUIRED_COVERS = {"any": ["absence-removed", "absence-kept", "ratio:gt1", "ratio:lt1", "refused", "waits-for-predecessor", "configured-twice"]}
+REQUIRED_COVERS = {"any": ["absence-removed", "absence-kept", "ratio:gt1", "ratio:lt1", "refused", "waits-for-predecessor", "configured-twice", "sub-project-backward"]}
 
 
 def _sub_spec(p):
@@ -47,7 +47,15 @@ def configure(p, ctx):
         kw = sim_kwargs(S)
         if p["stage"] == "failure":
             kw["max_time"] = 1
-        if p["stage"] != "never":
+        if "smax" in p:
+            kw["max_time"] = p["smax"]  # may be exactly the duration: the run still completes successfully
+        if p["stage"] == "backward":
+            ok, r = ctx.call(S.project.backward_simulate, **kw)
+            ctx.cover("sub-project-backward")
+            if not ok:
+                ctx.aborted = exc_tag(r)
+                return
+        elif p["stage"] != "never":
             ok, r = ctx.call(S.project.simulate, **kw)
             if not ok:
                 ctx.aborted = exc_tag(r)
@@ -164,6 +172,13 @@ def obligations(tier, seed):
                             "cube": {"sub_s": ss, "par_s": ps, "remove": remove, "kind": kind, "stage": "success", "twice": twice},
                             "params": [["sw", 1, 6 if thorough else 4], ["sa0", 0, 6], ["sa1", 0, 6], ["pw", 0, 2]], "pre": "sa0 < sa1",
                             "timeout": 600 if thorough else 150, "engine": "zsym"})
+    for remove in (0, 1):
+        obs.append({"name": "sub/exact-max-time/remove=%d" % remove, "harness": "configure",
+                    "cube": {"sub_s": 60, "par_s": 60, "remove": remove, "kind": 0, "stage": "success", "pw": 1},
+                    "params": [["sw", 1, 3], ["sa0", 0, 3], ["sa1", 1, 6], ["smax", 1, 6]], "pre": "sa0 < sa1", "timeout": 150, "engine": "zsym"})
+        obs.append({"name": "sub/backward/remove=%d" % remove, "harness": "configure",
+                    "cube": {"sub_s": 60, "par_s": 60, "remove": remove, "kind": 0, "stage": "backward", "pw": 1},
+                    "params": [["sw", 1, 4], ["sa0", 0, 5], ["sa1", 1, 7]], "pre": "sa0 < sa1", "timeout": 150, "engine": "zsym"})
     for stage in ("never", "failure"):
         for remove in (0, 1):
             obs.append({"name": "sub/refused/%s/remove=%d" % (stage, remove), "harness": "configure",
